@@ -717,13 +717,15 @@ fn fn_edits(src: &Src, take: &Take, sig: &syn::Signature, block: &syn::Block, fn
                 }
             }
             Sub::Before(anchor, text) => {
-                if let Some(r) = find_anchor_opt(&idx, anchor, fname, missing)? {
-                    push_hint(edits, r.0, text, fname, false);
+                match find_anchor_opt(&idx, anchor, fname, missing)? {
+                    Some(r) => push_hint(edits, r.0, text, fname, false),
+                    None => if text.contains("/*@") { return Err(format!("{}: the statement `{}` that carries labelled obligations is gone (lost anchor)", fname, anchor)); }
                 }
             }
             Sub::After(anchor, text) => {
-                if let Some(r) = find_anchor_opt(&idx, anchor, fname, missing)? {
-                    push_hint(edits, r.1, text, fname, true);
+                match find_anchor_opt(&idx, anchor, fname, missing)? {
+                    Some(r) => push_hint(edits, r.1, text, fname, true),
+                    None => if text.contains("/*@") { return Err(format!("{}: the statement `{}` that carries labelled obligations is gone (lost anchor)", fname, anchor)); }
                 }
             }
             Sub::Replace(anchor, text) => {
